@@ -1378,8 +1378,63 @@ class Program:
                     inner = self._slot_expr(func, value)
                     if inner:
                         return inner
-            return None
+            return self._local_function_values(func, callee.id, 0)
         return self._slot_expr(func, callee)
+
+    def _local_function_values(self, func: FuncInfo, name: str, depth: int) -> Optional[Set[FuncInfo]]:
+        """Functions a local can hold: an alias of a (bound) method or function, an element of a tuple
+        assignment, or the i-th element of the tuples of a local table that a ``for`` statement unpacks."""
+        if depth > 3:
+            return None
+
+        def functions_of(expr: ast.AST) -> Optional[Set[FuncInfo]]:
+            if isinstance(expr, ast.Name) and expr.id != name:
+                typ = self.infer(func, expr)
+                if typ and typ[0] == "func":
+                    return {typ[1]}
+                return self._local_function_values(func, expr.id, depth + 1)
+            typ = self.infer(func, expr)
+            if typ and typ[0] == "func":
+                return {typ[1]}
+            if typ and typ[0] == "bound":
+                return set(self._cha(typ[2], typ[1].name))
+            return None
+
+        out: Set[FuncInfo] = set()
+        bound_somewhere = False
+        for node in walk_local(func.node):
+            if isinstance(node, ast.Assign):
+                for target in node.targets:
+                    for tgt, value, _ in self._unpack(target, node.value):
+                        if isinstance(tgt, ast.Name) and tgt.id == name and value is not None:
+                            bound_somewhere = True
+                            found = functions_of(value)
+                            if not found:
+                                return None
+                            out |= found
+            elif isinstance(node, (ast.For, ast.comprehension)) and isinstance(node.target, ast.Tuple):
+                for index, element in enumerate(node.target.elts):
+                    if isinstance(element, ast.Name) and element.id == name:
+                        bound_somewhere = True
+                        table = node.iter
+                        if isinstance(table, ast.Name):
+                            tables = [n.value for n in walk_local(func.node) if isinstance(n, (ast.Assign, ast.AnnAssign)) and getattr(n, "value", None) is not None
+                                      and any(isinstance(t, ast.Name) and t.id == table.id for t in (n.targets if isinstance(n, ast.Assign) else [n.target]))]
+                        else:
+                            tables = [table]
+                        if not tables:
+                            return None
+                        for literal in tables:
+                            if not isinstance(literal, (ast.List, ast.Tuple)):
+                                return None
+                            for row in literal.elts:
+                                if not (isinstance(row, ast.Tuple) and index < len(row.elts)):
+                                    return None
+                                found = functions_of(row.elts[index])
+                                if not found:
+                                    return None
+                                out |= found
+        return out if bound_somewhere and out else None
 
     def _slot_expr(self, func: FuncInfo, expr: ast.AST, _depth: int = 0) -> Optional[Set[FuncInfo]]:
         base = expr.value if isinstance(expr, ast.Subscript) else expr
